@@ -30,7 +30,7 @@ COMPONENTS = {"real": "whole IPhreeqc library from /repo's working tree (ASan+UB
 ASSUMPTIONS = ["bitwise equality of table cells is demanded: both executions perform the same arithmetic in the same order (probed on the shipped examples)",
                "inputs whose whole-text reference run returns errors are skipped (counted), the property is about error-free inputs"]
 REACH_PROBES = ["compared_plans", "pieces", "rows_compared", "chunked_file_pieces", "eintr_fired", "benign_calls", "skipped_reference_error"]
-tiers = {"quick": dict(runs=800, budget_s=150, workers=16), "thorough": dict(runs=20000, budget_s=1700, workers=16)}
+tiers = {"quick": dict(runs=3000, budget_s=150, workers=16), "thorough": dict(runs=60000, budget_s=1700, workers=16)}
 
 S1 = c07.S1
 ZZ_DEFS = ("SOLUTION_MASTER_SPECIES\n Zz Zz+ 0 Zz 90\nSOLUTION_SPECIES\n Zz+ = Zz+\n log_k 0\n Zz+ + Cl- = ZzCl\n log_k 1.5\nPHASES\n Zzite\n ZzCl = Zz+ + Cl-\n log_k -2\n"
@@ -77,6 +77,8 @@ def in_inc(name):
 
 
 def plan_text(plan):
+    if plan.get("text"):
+        return plan["text"]
     parts = []
     for n in plan["inputs"]:
         t = in_text(n)
@@ -88,7 +90,50 @@ def plan_text(plan):
     return "".join(parts)
 
 
+PRINT_TOGGLES = [" -selected_output false", " -selected_output true", " -selected_output false", " -user_print false", " -user_print true", " -species false", " -totals false", " -reset true",
+                 " -saturation_indices false", " -headings false", " -warnings 2", " -dump false", " -dump true", " -alkalinity true"]
+KNOB_LINES = [" -iterations 150", " -step_size 7", " -pe_step_size 3", " -diagonal_scale true", " -tolerance 1e-14", " -convergence_tolerance 1e-10", " -logfile true"]
+CALCS = ["USE solution 1\nREACTION 1\n NaCl 1\n 1 2 mmol\nSAVE solution 2\nEND\n", "USE solution 1\nEQUILIBRIUM_PHASES 1\n Calcite 0 1\n CO2(g) -2 1\nSAVE solution 3\nEND\n",
+         "USE solution 1\nREACTION_TEMPERATURE 1\n 30 50\nEND\n", "SOLUTION 4\n K 1\n Cl 1\nEND\n", "MIX 1\n 1 0.5\n 1 0.5\nSAVE solution 5\nEND\n",
+         "USE solution 1\nREACTION 2\n HCl 1\n 0.5 mmol in 2 steps\nEND\n", "SOLUTION 0\n Na 1\n Cl 1\nSOLUTION 6-7\n K 1\n Cl 1\nADVECTION\n -cells 2\n -shifts 2\n -punch_cells 1-2\nEND\n"]
+
+
+def gen_text(rng):
+    """multi-simulation text whose later simulations rely on definitions and sticky settings made in earlier ones"""
+    import c05
+    t = ""
+    nums = rng.sample([1, 2, 3, 5, 10], rng.range(1, 3))
+    for n in nums:
+        b, _ = c05.gen_block(rng, n)
+        t += "\n".join(l for l in b.split("\n") if not l.startswith(" -file")) + ("" if b.endswith("\n") else "\n")
+    t = t.replace("SIM_NO", "STEP_NO")          # the simulation counter is the one thing the statement lets differ
+    t += S1 + "END\n"
+    for _ in range(rng.range(2, 5)):
+        if rng.chance(55):
+            t += "PRINT\n" + "\n".join(rng.sample(PRINT_TOGGLES, rng.range(1, 2))) + "\n"
+        if rng.chance(25):
+            t += "KNOBS\n" + "\n".join(rng.sample(KNOB_LINES, rng.range(1, 2))) + "\n"
+        if rng.chance(15):
+            t += "INCREMENTAL_REACTIONS %s\n" % rng.choice(["true", "false"])
+        if rng.chance(15):
+            b, _ = c05.gen_block(rng, rng.choice(nums))
+            t += ("\n".join(l for l in b.split("\n") if not l.startswith(" -file")) + ("" if b.endswith("\n") else "\n")).replace("SIM_NO", "STEP_NO")
+        if rng.chance(10):
+            t += "TITLE a title in the middle\n"
+        t += rng.choice(CALCS)
+    return t
+
+
 def generate(rng, tier, index):
+    if rng.chance(30):
+        p = generate_corpus(rng, tier, index)
+        p["inputs"] = ["@generated"]
+        p["text"] = gen_text(rng)
+        return p
+    return generate_corpus(rng, tier, index)
+
+
+def generate_corpus(rng, tier, index):
     if rng.chance(35):
         inputs = list(rng.choice(COMBOS))
         if rng.chance(30):
@@ -133,9 +178,9 @@ def pieces_of(plan):
 
 def compile_plan(plan):
     pieces, text = pieces_of(plan)
-    db = in_db(plan["inputs"][0])
+    db = PHREEQC_DAT if plan.get("text") else in_db(plan["inputs"][0])
     incs = []
-    for n in plan["inputs"]:
+    for n in ([] if plan.get("text") else plan["inputs"]):
         incs += in_inc(n)
     head = [["create", "1", "sim"]]
     if plan["sinks"]:
@@ -280,6 +325,15 @@ def check_plan(ctx, plan):
 
 
 def shrink_candidates(plan):
+    if plan.get("text"):
+        sims = split_simulations(plan["text"])
+        for i in range(len(sims)):
+            if len(sims) > 2:
+                yield dict(plan, text="".join(sims[:i] + sims[i + 1:]))
+        lines = plan["text"].split("\n")
+        for i in range(len(lines)):
+            if lines[i].startswith(" ") and len(lines) > 4:
+                yield dict(plan, text="\n".join(lines[:i] + lines[i + 1:]))
     if len(plan["inputs"]) > 1:
         for i in range(len(plan["inputs"])):
             c = dict(plan)
